@@ -74,7 +74,11 @@ def units(tier):
                       and interp.truth(interp.eq(r, m)), detail="returned %r" % (r,))
         ctx.prove("population-unchanged", And(u.m == m, u.clash == clash, u.m2 == m2))
         ctx.prove("only-search-commands", len(u.unexpected) == 0)
-        ctx.prove("one-compare-per-level", u.compares == 1)
+        if getattr(ctx, "native", False):
+            # the native run really recurses (binary search over at most 24 bits, two halves per level)
+            ctx.prove("one-compare-per-level", 1 <= u.compares <= 49)
+        else:
+            ctx.prove("one-compare-per-level", u.compares == 1)     # the recursive calls are their contract here
         cls = [type_of(c) for c in h.trace[:4]]
         ctx.prove("loads-search-address-then-compares", cls == [G.SearchaddrH, G.SearchaddrM, G.SearchaddrL, G.Compare])
         if len(h.trace) >= 3:
@@ -241,6 +245,9 @@ def extra_checks(tier, seed):
                                "cfg": repr(cfg), "result": why, "failing_configurations": len(items)}})
     return res
 
+
+# checks whose proof units establish the callee contracts applied here (re-verified by this check, see main.dependency_units)
+DEPENDENCIES = ['C04', 'C05']
 
 META = {
     "level": "proof",
